@@ -430,6 +430,14 @@ func (g *Gen) Emit(dir, pkgName string, b Binding, snips []*Snippet, theme strin
 			classSet["namesake"] = true
 		}
 	}
+	varAliases := map[string]string{}
+	for a, p := range imports {
+		for _, v := range pkgVars {
+			if strings.HasSuffix(v, "= "+a+".V") {
+				varAliases[a] = p
+			}
+		}
+	}
 	var biDecls []string
 	for _, n := range BuiltinNames {
 		// A package-level namesake is declared whenever the binding says so, used or not
@@ -442,6 +450,34 @@ func (g *Gen) Emit(dir, pkgName string, b Binding, snips []*Snippet, theme strin
 			biDecls = append(biDecls, builtinX(n))
 			classSet["namesake"] = true
 		}
+	}
+	// Package-level namesakes live in a sibling file half of the time: the parser resolves
+	// identifiers only within one file, so cross-file namesakes look unresolved syntactically.
+	if (len(pkgVars) > 0 || len(biDecls) > 0) && g.Rng.Intn(2) == 0 {
+		var nf strings.Builder
+		fmt.Fprintf(&nf, "package %s\n\n", pkgName)
+		if len(varAliases) > 0 {
+			nf.WriteString("import (\n")
+			ks := make([]string, 0, len(varAliases))
+			for a := range varAliases {
+				ks = append(ks, a)
+			}
+			sort.Strings(ks)
+			for _, a := range ks {
+				fmt.Fprintf(&nf, "\t%s %q\n", a, varAliases[a])
+				delete(imports, a)
+			}
+			nf.WriteString(")\n\n")
+		}
+		for _, v := range pkgVars {
+			nf.WriteString(v + "\n")
+		}
+		for _, d := range biDecls {
+			nf.WriteString(d + "\n")
+		}
+		os.WriteFile(filepath.Join(dir, "ns_gen.go"), []byte(nf.String()), 0o644)
+		pkgVars, biDecls = nil, nil
+		classSet["crossfile-namesake"] = true
 	}
 	var f strings.Builder
 	fmt.Fprintf(&f, "// Generated hostile package: theme=%s\npackage %s\n\n", theme, pkgName)
